@@ -117,3 +117,57 @@ fn c11_writer_time_part() {
     kani::cover!(leap);
     kani::cover!(mins < 0);
 }
+
+fn read2822(bytes: &[u8]) -> chrono::format::Parsed {
+    // the symbolic bytes are ASCII digits and the rest is a literal: valid UTF-8 by construction
+    let s = unsafe { core::str::from_utf8_unchecked(bytes) };
+    let mut p = chrono::format::Parsed::new();
+    let r = chrono::format::parse(&mut p, s, [Item::Fixed(Fixed::RFC2822)].iter());
+    assert!(r.is_ok());
+    p
+}
+
+// @ob tier=extra timeout=1800 mem=12
+// @desc RFC 2822 reader, obsolete two-digit years (the real parse_rfc2822 through the public Fixed::RFC2822 item): in `1 Jan YY 00:00 +0000`, for every two-digit year text, YY < 50 is read as 20YY and YY >= 50 as 19YY; the other fields are read as written
+// @bounds all 100 two-digit year texts; the rest of the input concrete (day 1, Jan, 00:00 without seconds, +0000)
+// @funcs parse_rfc2822 (via format::parse), scan::{number, short_month0, space, char, timezone_offset_2822}, Parsed::set_*
+#[kani::proof]
+#[kani::unwind(22)]
+fn c11_reader_year2() {
+    let (a, b): (u8, u8) = (kani::any(), kani::any());
+    kani::assume(a < 10 && b < 10);
+    let mut t = *b"1 Jan 00 00:00 +0000";
+    t[6] = b'0' + a;
+    t[7] = b'0' + b;
+    let p = read2822(&t);
+    let yy = (a * 10 + b) as i32;
+    assert!(p.year() == Some(if yy < 50 { 2000 + yy } else { 1900 + yy }));
+    assert!(p.month() == Some(1) && p.day() == Some(1) && p.hour_div_12() == Some(0) && p.hour_mod_12() == Some(0) && p.minute() == Some(0) && p.second() == None && p.offset() == Some(0));
+    kani::cover!(yy == 49);
+    kani::cover!(yy == 50);
+}
+
+// @ob tier=extra timeout=1800 mem=12
+// @desc RFC 2822 reader, obsolete three-digit and plain four-digit years: in `1 Jan YYY 00:00 +0000` every three-digit year text is read as 1900 + YYY, and in `1 Jan YYYY 00:00 +0000` every four-digit text as itself
+// @bounds all 1000 three-digit and all 10000 four-digit year texts; the rest of the input concrete
+// @funcs parse_rfc2822 (via format::parse), scan::number, Parsed::set_year
+#[kani::proof]
+#[kani::unwind(23)]
+fn c11_reader_year34() {
+    let (a, b, c, d): (u8, u8, u8, u8) = (kani::any(), kani::any(), kani::any(), kani::any());
+    kani::assume(a < 10 && b < 10 && c < 10 && d < 10);
+    let mut t3 = *b"1 Jan 000 00:00 +0000";
+    t3[6] = b'0' + a;
+    t3[7] = b'0' + b;
+    t3[8] = b'0' + c;
+    let p = read2822(&t3);
+    assert!(p.year() == Some(1900 + a as i32 * 100 + b as i32 * 10 + c as i32));
+    let mut t4 = *b"1 Jan 0000 00:00 +0000";
+    t4[6] = b'0' + a;
+    t4[7] = b'0' + b;
+    t4[8] = b'0' + c;
+    t4[9] = b'0' + d;
+    let q = read2822(&t4);
+    assert!(q.year() == Some(a as i32 * 1000 + b as i32 * 100 + c as i32 * 10 + d as i32));
+    kani::cover!(a == 9 && b == 9 && c == 9 && d == 9);
+}
